@@ -1,4 +1,164 @@
-/- oracle_c19 — placeholder driver (replaced when the C19 model is added). -/
+/-
+  oracle_c19 — line-protocol driver for the qdb model (GocoinV.Model.Qdb). Stateful.
+  Requests (byte strings hex, "-" = empty; numbers decimal):
+    reset                               empty directory, no DB           -> ok
+    seed <qdbidx.log|qdbidx.0|qdbidx.1> <bytes>   put a file into the closed directory  -> ok
+    open <vol> <load> <dp> <fp> <mp> <mpn>    NewDBExt on the directory  -> ok ; <state>
+    put <k> <val> | putext <k> <val> <fl> | del <k> | flags <k> <fl> | sync | nosync | close
+                                                                         -> ok ; <state>
+    defrag <0|1>                                                         -> ok <0|1> ; <state>
+    get <k>                                                              -> some <val> | none ; <state>
+    browse <k:fl,k:fl|->               walk returns fl for key k         -> <k=len.hash,…|-> ; <state>
+    peek                               BrowseAll, walk returns 0         -> <k=len.hash,…|-> ; <state>
+    count                                                                -> <n>
+    crash                              for the last state-changing request: the directory after every
+                                       prefix of its effects, reopened (non-volatile, load, default opts)
+                                                                         -> <tag>=<recovered>;<tag>=<recovered>;…
+  <state>     = ds=<DataSeq> vs=<VersionSequence> di=<DatfileIndex> ex=<Extra> nd=<Needed> pe=<#pending>
+                ns=<0|1> files=<name:size,…>   or   failed=<exit|panic>
+  <recovered> = ok:<k=len.hash,…|->  or  fail:<exit|panic>
+  hash = FNV-1a 64 of the value.
+-/
+import GocoinV.Model.Qdb
 import GocoinV.Base.Proto
-open GocoinV
-def main : IO Unit := Proto.serve () (fun _ _ => ((), "bad-op"))
+open GocoinV GocoinV.Qdb
+
+structure S where
+  fs : FS := {}                 -- the directory while no DB is open
+  db : Option DB := none
+  fsBefore : FS := {}           -- directory before the last state-changing request
+  lastEffs : List (String × Effect) := []
+
+def fnv (b : Bytes) : Nat :=
+  b.foldl (fun h x => ((h ^^^ x.toNat) * 0x100000001b3) % 2^64) 0xcbf29ce484222325
+
+def hex8 (n : Nat) : String := Hex.encodeRaw (beBytes 4 n)
+
+def fileList (fs : FS) : String :=
+  let dats := (sortNat (fs.dats.map (·.1))).map fun s =>
+    s!"{hex8 s}.dat:{((dlookup s fs.dats).getD []).length}"
+  let o (n : String) (f : Option Bytes) : List String := match f with
+    | some b => [s!"{n}:{b.length}"] | none => []
+  String.intercalate "," (dats ++ o "qdbidx.0" fs.idx0 ++ o "qdbidx.1" fs.idx1 ++ o "qdbidx.log" fs.log)
+
+def stateStr (db : DB) : String :=
+  match db.failed with
+  | some w => s!"failed={w}"
+  | none =>
+    s!"ds={db.dataSeq} vs={db.verSeq} di={db.datIdx} ex={db.extra} nd={db.need} pe={db.pending.length} ns={Proto.boolStr db.noSync} files={fileList db.fs}"
+
+def insKV (kv : Key × Bytes) : List (Key × Bytes) → List (Key × Bytes)
+  | [] => [kv]
+  | h :: t => if kv.1 ≤ h.1 then kv :: h :: t else h :: insKV kv t
+
+def kvStr (l : List (Key × Bytes)) : String :=
+  let l := l.foldr insKV []
+  if l.isEmpty then "-" else
+  String.intercalate "," (l.map fun (k, v) => s!"{k}={v.length}.{fnv v}")
+
+/-- reopen a directory and read every key -/
+def recovered (fs : FS) : String :=
+  let db := openDB fs false true {}
+  match db.failed with
+  | some w => s!"fail:{w}"
+  | none =>
+    let r := db.index.foldl (fun (acc : Option (List (Key × Bytes))) kr =>
+      match acc, valueOf db.fs kr.2 with
+      | some l, some v => some (l ++ [(kr.1, v)])
+      | _, _ => none) (some [])
+    match r with
+    | some l => s!"ok:{kvStr l}"
+    | none => "fail:exit"
+
+def crashStr (s : S) : String :=
+  let n := s.lastEffs.length
+  let one (k : Nat) : String :=
+    let tag := if k = 0 then "before" else match s.lastEffs[k - 1]? with | some (t, _) => t | none => "?"
+    s!"{tag}={recovered (s.fsBefore.applyAll ((s.lastEffs.take k).map (·.2)))}"
+  String.intercalate ";" ((List.range (n + 1)).map one)
+
+def parseWalk (w : String) : Option (List (Key × Nat)) :=
+  if w == "-" then some [] else
+  (w.splitOn ",").mapM fun p => match p.splitOn ":" with
+    | [k, f] => do let k ← k.toNat?; let f ← f.toNat?; pure (k, f)
+    | _ => none
+
+/-- run a state-changing request on the open DB -/
+def mutate (s : S) (f : DB → DB × String) : S × String :=
+  match s.db with
+  | none => (s, "bad-op")
+  | some db =>
+    let db0 := { db with effs := [] }
+    let (db', res) := f db0
+    ({ s with db := some db', fs := db'.fs, fsBefore := db.fs, lastEffs := db'.effs }, s!"{res} ; {stateStr db'}")
+
+def b01 (t : String) : Option Bool := if t == "1" then some true else if t == "0" then some false else none
+
+def step (s : S) (toks : List String) : S × String :=
+  let bad := (s, "bad-op")
+  match toks with
+  | ["reset"] => ({}, "ok")
+  | ["seed", name, v] =>
+    match s.db, Hex.decode v with
+    | none, some v =>
+      if name == "qdbidx.log" then ({ s with fs := { s.fs with log := some v } }, "ok")
+      else if name == "qdbidx.0" then ({ s with fs := { s.fs with idx0 := some v } }, "ok")
+      else if name == "qdbidx.1" then ({ s with fs := { s.fs with idx1 := some v } }, "ok")
+      else bad
+    | _, _ => bad
+  | ["open", vol, load, dp, fp, mp, mpn] =>
+    match s.db, b01 vol, b01 load, dp.toNat?, fp.toNat?, mp.toNat?, mpn.toNat? with
+    | none, some vol, some load, some dp, some fp, some mp, some mpn =>
+      let db := openDB s.fs vol load { defragPerc := dp, forcedPerc := fp, maxPending := mp, maxPendingNoSync := mpn }
+      ({ s with db := some db, fs := db.fs, fsBefore := s.fs, lastEffs := db.effs }, s!"ok ; {stateStr db}")
+    | _, _, _, _, _, _, _ => bad
+  | ["put", k, v] =>
+    match k.toNat?, Hex.decode v with
+    | some k, some v => mutate s fun db => (put db k v, "ok")
+    | _, _ => bad
+  | ["putext", k, v, f] =>
+    match k.toNat?, Hex.decode v, f.toNat? with
+    | some k, some v, some f => mutate s fun db => (putExt db k v f, "ok")
+    | _, _, _ => bad
+  | ["del", k] =>
+    match k.toNat? with
+    | some k => mutate s fun db => (del db k, "ok")
+    | _ => bad
+  | ["flags", k, f] =>
+    match k.toNat?, f.toNat? with
+    | some k, some f => mutate s fun db => (applyFlags db k f, "ok")
+    | _, _ => bad
+  | ["sync"] => mutate s fun db => (syncOp db, "ok")
+  | ["nosync"] => mutate s fun db => (noSyncOp db, "ok")
+  | ["defrag", f] =>
+    match b01 f with
+    | some f => mutate s fun db => let (d, r) := defragOp db f; (d, s!"ok {Proto.boolStr r}")
+    | none => bad
+  | ["close"] =>
+    match s.db with
+    | none => bad
+    | some db =>
+      let db0 := { db with effs := [] }
+      let c := close db0
+      match c.failed with
+      | some w => ({ s with db := some c }, s!"ok ; failed={w}")
+      | none => ({ s with db := none, fs := c.fs, fsBefore := db.fs, lastEffs := c.effs }, s!"ok ; files={fileList c.fs}")
+  | ["get", k] =>
+    match k.toNat? with
+    | some k => mutate s fun db =>
+        let (d, r) := get db k
+        (d, match r with | some v => s!"some {Hex.encode v}" | none => "none")
+    | _ => bad
+  | ["browse", w] =>
+    match parseWalk w with
+    | some w => mutate s fun db => let (d, out) := browse db w; (d, kvStr out)
+    | none => bad
+  | ["peek"] => mutate s fun db => let (d, out) := browseAll db []; (d, kvStr out)
+  | ["count"] =>
+    match s.db with
+    | some db => (s, s!"{count db}")
+    | none => bad
+  | ["crash"] => (s, crashStr s)
+  | _ => bad
+
+def main : IO Unit := Proto.serve ({} : S) step
